@@ -59,8 +59,28 @@ fn run_sched(args: &[String]) -> i32 {
     let mut noprogress_polls = 0usize;
     let mut class_counts: BTreeMap<String, usize> = BTreeMap::new();
 
+    let debug_cfg = std::env::var("VERIF_DEBUG_CFG").ok();
     for (n, (fam, idx, cfg)) in configs.iter().enumerate() {
         if (n + seed) % sn != si {
+            continue;
+        }
+        if let Some(d) = &debug_cfg {
+            // debugging aid: run only the named configurations and print their executions
+            if !cfg.name.contains(d.as_str()) {
+                continue;
+            }
+            let mut st = ExploreStats::default();
+            exec::explore(cfg, &exec::stream_subject, 50, &mut st, &mut |tr| {
+                println!("--- {} schedule {:?}", cfg.name, tr.schedule());
+                for l in tr.render() {
+                    println!("  {l}");
+                }
+                println!("  quiescent_at {:?}", tr.quiescent_at);
+                for v in oracles::check_all(cfg, tr) {
+                    println!("  VIOL {} [{}] {}", v.prop, v.key, v.msg);
+                }
+                true
+            });
             continue;
         }
         if t0.elapsed().as_secs_f64() > budget_s {
